@@ -655,7 +655,7 @@ def strict_read(stream: bytes, max_messages: int = 50):
         if not mv:
             return msgs, ("reject", "bad HTTP-version")
         if any(c < 0x21 or c == 0x7F for c in target):
-            return msgs, ("dontcare", "control byte in request-target")
+            return msgs, ("reject", "control byte in request-target")  # RFC 9112 3.2 / RFC 3986: no CTL in a target; see finding 2ca9a6c
         m.method = method.decode().upper()
         m.target = target
         m.version = (int(mv.group(1)), int(mv.group(2)))
@@ -717,7 +717,14 @@ def strict_read(stream: bytes, max_messages: int = 50):
             te = tes[0]
             codings = [c.strip(b" \t") for c in te.split(b",")]
             if not all(c.isascii() for c in codings):
-                return msgs, ("reject", "non-ASCII transfer coding")
+                # Case-insensitivity of coding names is ASCII-only: a non-ASCII name (even one that Unicode-folds to "chunked",
+                # e.g. with U+212A KELVIN SIGN) is an unknown coding.  As the final coding it cannot frame the body: reject.
+                # Before a final, single, ASCII "chunked" it is tolerated like any unknown coding
+                # (tests/test_http_parser.py test_request_te_last_chunked): DON'T-CARE.
+                lowb = [c.lower() for c in codings]
+                if lowb[-1] != b"chunked" or lowb.count(b"chunked") != 1:
+                    return msgs, ("reject", "non-ASCII transfer coding and no single final 'chunked'")
+                return msgs, ("dontcare", "non-ASCII unknown transfer coding before a final chunked")
             low = [c.lower() for c in codings]
             if low.count(b"chunked") != 1 or low[-1] != b"chunked":
                 return msgs, ("reject", "transfer coding is not a single final 'chunked'")
